@@ -761,6 +761,7 @@ int main(int argc, char** argv)
     setup_alphabets();
     Ex ex;
     ex.prop = "C01";
+    ex.san_kind = "C02:sanitizer-report";   // an out-of-bounds access is a C02 matter
     ex.inst = CFG_NAME;
     ex.max_depth = depth;
     ex.max_states = max_states;
